@@ -1078,3 +1078,112 @@ def encoder_failure_is_refusal(fn: Callable) -> Callable:
         except (_struct.error, OverflowError) as e:
             raise ValueError(f"(canonicalised encoder failure) {type(e).__name__}: {e}") from e
     return wrapped
+
+
+# --------------------------------------------------------------------------------------------
+# probes for state that only shows after the APPLICATION did something with what it got back:
+# it modified an object a decoder handed out (then decodes again), or a call of an encoder failed
+# (then encodes again)
+# --------------------------------------------------------------------------------------------
+def attempt_all(attempts: Iterable[Callable[[], Any]]) -> int:
+    """runs calls that are EXPECTED to fail (an encoder given an unencodable value, a decoder given a cut buffer) the
+    way a program does that catches the error and carries on; whatever they do - raise anything, or succeed - is
+    ignored. Returns how many raised. What the caller does next (the real pack / decode, compared with the model as
+    always) must not be influenced by them: a failed call has no memory."""
+    failed = 0
+    for f in attempts:
+        try:
+            f()
+        except SelfCheckFailure:
+            raise
+        except InfraError:
+            raise
+        except Exception:  # noqa
+            failed += 1
+    return failed
+
+
+def tolerant_set(obj: Any, name: str, value: Any) -> bool:
+    """`obj.<name> = value` as a step of a mutation probe: a setter that is missing or refuses the value makes the
+    probe weaker, never an alarm"""
+    try:
+        setattr(obj, name, value)
+        return True
+    except Exception:  # noqa
+        return False
+
+
+def _decode_outcome(decode: Callable[[bytes], Any], buf: bytes, view: Callable[[Any], Any]):
+    """(object or None, ('ok', view) | ('refused',)); which class refuses is not part of the outcome"""
+    try:
+        obj = decode(buf)
+    except (SelfCheckFailure, InfraError):
+        raise
+    except Exception:  # noqa
+        return None, ("refused",)
+    if obj is None:
+        return None, ("ok", None)
+    return obj, ("ok", view(obj))
+
+
+def _short(v: Any) -> str:
+    return json.dumps(v, sort_keys=True, default=str)[:240]
+
+
+def redecode_after_mutation(decode: Callable[[bytes], Any], raw: bytes, view: Callable[[Any], Any],
+                            mutate: Callable[[Any], Optional[Callable[[], Any]]], what: str = "decoder",
+                            others: Iterable[bytes] = ()) -> None:
+    """What a decoder returns is a function of the octets it is given - also after the application has modified an
+    object the decoder handed out earlier (a received header turned into the header of the reply, a received PDU
+    switched to NO_CRC for forwarding). Self-contained sequence on the real code:
+      a = decode(raw); b = decode(raw); every buffer of `others` decoded (a corrupted variant is normally refused);
+      mutate(a)  - through the documented public setters / attributes only (use tolerant_set); may return an undo;
+      then  view(b) is what it was (two objects decoded from the same octets share nothing),
+            decode(raw) shows the view it showed the first time,
+            every buffer of `others` is accepted-with-the-same-view / refused exactly as before.
+    Nothing happens when `raw` itself is refused. The undo is called at the end whatever the result, so that an
+    implementation that does leak the mutation fails on THIS case and not on unrelated later ones.
+    Raises SelfCheckFailure."""
+    a, first = _decode_outcome(decode, raw, view)
+    if a is None:
+        return
+    b, twin = _decode_outcome(decode, raw, view)
+    if twin != first:
+        raise SelfCheckFailure(f"{what}: two calls on the same octets {raw.hex()[:120]} give different results: "
+                               f"{_short(first)} / {_short(twin)}")
+    others = [bytes(o) for o in others]
+    before = [_decode_outcome(decode, o, view)[1] for o in others]
+    undo = None
+    try:
+        undo = mutate(a)
+    except (SelfCheckFailure, InfraError):
+        raise
+    except Exception:  # noqa
+        pass
+    try:
+        try:
+            again = view(b)
+        except (SelfCheckFailure, InfraError):
+            raise
+        except Exception as e:  # noqa
+            raise SelfCheckFailure(f"{what}: an object decoded from {raw.hex()[:120]} can no longer be inspected after ANOTHER "
+                                   f"object decoded from the same octets was modified through its setters ({type(e).__name__})")
+        if ("ok", again) != first:
+            raise SelfCheckFailure(f"{what}: an object decoded from {raw.hex()[:120]} changed when ANOTHER object decoded from the "
+                                   f"same octets was modified through its public setters: {_short(first[1])} became {_short(again)}")
+        _, third = _decode_outcome(decode, raw, view)
+        if third != first:
+            raise SelfCheckFailure(f"{what}: the octets {raw.hex()[:120]} are decoded differently after the application modified (public "
+                                   f"setters) an object it had decoded from them earlier: {_short(first)} then {_short(third)}")
+        for o, was in zip(others, before):
+            _, now = _decode_outcome(decode, o, view)
+            if now != was:
+                raise SelfCheckFailure(f"{what}: the octets {o.hex()[:120]} are {'ACCEPTED' if now[0] == 'ok' else 'refused'} after the "
+                                       f"application modified (public setters) an object decoded earlier from {raw.hex()[:120]}; before "
+                                       f"that they were {'accepted' if was[0] == 'ok' else 'refused'}: {_short(was)} then {_short(now)}")
+    finally:
+        if callable(undo):
+            try:
+                undo()
+            except Exception:  # noqa
+                pass
